@@ -14,6 +14,7 @@
    more than their keys (identity, untagged fields).                                          *)
 From Coq Require Import List Bool ZArith String Permutation Sorted.
 From GT Require Import GSortModel GSortProofs GSortTagModel GSortTagProofs Base.SortU.
+From GT Require Import GSortTextModel GSortTextProofs.
 Import ListNotations.
 
 (* --- Less = lexicographic comparison ------------------------------------------------- *)
@@ -33,19 +34,70 @@ Theorem C08_keys_perm : forall name fs,
   Permutation (fold_right ins_pk [] (tagged name fs)) (tagged name fs).
 Proof. intros. exact (sort_pk_perm _). Qed.
 (* ... in ascending priority *)
+(* every key is the view its OWN tag names: field idx read plainly (slot 2*idx) when the tag has
+   no accessor, through the accessor (slot 2*idx+1) when it has one - per tag, not per field *)
+Theorem C08_keys_are_tag_views : forall name fs p k,
+  In (p, k) (tagged name fs) <->
+  exists idx f t, nth_error fs idx = Some f /\ In t (fd_tags f) /\ tg_sorter t = name
+                  /\ p = tg_prio t
+                  /\ k = (if fd_isbool f then KBool else KOrd) (slot idx (tg_acc t)).
+Proof. exact tagged_iff. Qed.
+(* the tag parser has no memory: the options of one gsort tag are parsed without regard to the
+   tags before it *)
+Theorem C08_tags_parsed_independently : forall o1 o2,
+  parse_all (o1 ++ o2) = match parse_all o1, parse_all o2 with
+                         | Some a, Some b => Some (a ++ b)%list
+                         | _, _ => None
+                         end.
+Proof. exact parse_all_app. Qed.
 Theorem C08_keys_ascending : forall name fs,
   StronglySorted (fun a b => (fst a <= fst b)%Z) (fold_right ins_pk [] (tagged name fs)).
 Proof. intros. exact (sort_pk_sorted _). Qed.
 
-(* the generator accepts exactly the definitions of the property's quantifier (priorities of
-   every sorter pairwise distinct) and then emits a Less for every sorter name *)
+(* the generator accepts exactly the definitions of the property's quantifier — priorities of
+   every sorter pairwise distinct, and no sorter name used both as `S` and as `*S` (forms_ok: the
+   two would be one type name in the output; refused since ac707f2) — and then emits a Less for
+   every sorter name *)
 Theorem C08_generation_accepts_iff : forall ty fs,
-  create ty fs <> None <-> (forall name, prios_distinct name fs = true).
+  create ty fs <> None <->
+  ((forall name, prios_distinct name fs = true) /\ forms_ok (collect ty fs) = true).
 Proof. exact create_some_iff. Qed.
 Theorem C08_generation_defined : forall ty fs name,
-  (forall n, prios_distinct n fs = true) -> In name (sorter_names fs) ->
+  (forall n, prios_distinct n fs = true) -> forms_ok (collect ty fs) = true ->
+  In name (sorter_names fs) ->
   exists f, gen_less ty fs name = Some f.
 Proof. exact gen_less_defined. Qed.
+(* the generator up to 50aeaa4 accepted `S` next to `*S` (and wrote a file that does not compile:
+   C13's finding C13-gsort-both-forms) *)
+Theorem C08_generation_accepts_orig_iff : forall ty fs,
+  create_orig2 ty fs <> None <-> (forall name, prios_distinct name fs = true).
+Proof. exact create_orig2_some_iff. Qed.
+
+(* --- the emitted text and its meaning ----------------------------------------------------- *)
+(* `render_block` is the TEXT the template's PriorityBlock writes for a chain (one gofmt-ed line
+   per entry), `less` its intended meaning.  GSortTextModel.v connects the two through the
+   emitted Go itself: `parse_lines` reads such lines back into statements (`if a == b { ... }`,
+   `return a < b`, `return !a && b`), `eval_stmts` runs them the way Go does, operands read from
+   the two elements through the chain's accessors.  The rendered text of every chain, so read
+   and run, computes `less` — hence the lexicographic order.  (The judge applies the same parser
+   and evaluator to the text the REAL template wrote, see GSortJudge.text_sem.) *)
+Theorem C08_text_is_printed_syntax : forall cs,
+  render_block cl_string cs = print_stmts (block_ast cs).
+Proof. exact render_block_print. Qed.
+Theorem C08_text_denotes : forall cs,
+  cs <> [] -> chain_consistent cs -> forallb (fun c => nospace (cl_acc c)) cs = true ->
+  exists ss, parse_lines (render_block cl_string cs) = Some ss
+             /\ forall a b, eval_stmts (env_of cs) ss a b = Some (less cs a b).
+Proof. exact text_denotes. Qed.
+Theorem C08_text_denotes_lex : forall cs,
+  cs <> [] -> chain_consistent cs -> forallb (fun c => nospace (cl_acc c)) cs = true ->
+  exists ss, parse_lines (render_block cl_string cs) = Some ss
+             /\ forall a b, eval_stmts (env_of cs) ss a b = Some (lex_lt (keys_of cs) a b).
+Proof. exact text_denotes_lex. Qed.
+(* the parser inverts the printer on every statement list whose accessors are single words *)
+Theorem C08_parse_print : forall ss, forallb stmt_ok ss = true ->
+  parse_lines (print_stmts ss) = Some ss.
+Proof. exact parse_print. Qed.
 
 Local Open Scope string_scope.
 (* --- from the tag text ------------------------------------------------------------------ *)
@@ -101,10 +153,34 @@ Example C08_example_tags :
   /\ parse_options "S," = None /\ parse_options "S,1 " = None
   /\ gsort_options [("json", "a,omitempty"); ("gsort", "A,1"); ("yaml", "b"); ("gsort", "*B,2")]
      = ["A,1"; "*B,2"]
-  /\ itoa (-120) = "-120".
+  /\ itoa (-120) = "-120"
+  (* a key that merely ENDS in gsort and carries the same value is hit first by the textual
+     Replace; its head `x` stays behind and hides the rest of the tag from Lookup *)
+  /\ gsort_options [("xgsort", "A,1"); ("gsort", "A,1"); ("gsort", "B,2")] = ["A,1"]
+  /\ gsort_options [("xgsort", "B,2"); ("gsort", "A,1"); ("gsort", "B,2")] = ["A,1"; "B,2"].
+Proof. vm_compute. repeat split. Qed.
+
+(* the rendered text of a two-key chain, parsed and run *)
+Example C08_example_text :
+  let cs := [ {| cl_isbool := false; cl_acc := "Name"; cl_idx := 0 |};
+              {| cl_isbool := true; cl_acc := "Flag"; cl_idx := 2 |} ] in
+  render_block cl_string cs
+  = ["if s[i].Name == s[j].Name {"; "return !s[i].Flag && s[j].Flag"; "}";
+     "return s[i].Name < s[j].Name"]
+  /\ parse_lines (render_block cl_string cs)
+     = Some [SIf (EEq "Name") [SReturn (ENotAnd "Flag")]; SReturn (ELt "Name")]
+  /\ option_map (fun ss => eval_stmts (env_of cs) ss [VZ 1; VZ 0; VB false] [VZ 1; VZ 0; VB true])
+                (parse_lines (render_block cl_string cs)) = Some (Some true)
+  (* a re-spelled comparison is not read (no meaning is claimed for it) *)
+  /\ parse_lines ["return s[j].Name > s[i].Name"] = None
+  (* an ill-typed operand has no meaning: `<` on a bool view *)
+  /\ eval_stmts (env_of cs) [SReturn (ELt "Flag")] [] [] = None.
 Proof. vm_compute. repeat split. Qed.
 
 (* --- strict weak order ---------------------------------------------------------------- *)
+(* whatever Less the generator emits is a strict weak order *)
+Theorem C08_generated_swo : forall ty fs name f, gen_less ty fs name = Some f -> swo f.
+Proof. exact gen_less_swo. Qed.
 
 Theorem C08_irrefl : forall cs a, less cs a a = false.
 Proof. intros cs. exact (swo_irrefl _ (less_swo cs)). Qed.
@@ -162,16 +238,20 @@ Definition ex_fields : list fieldT :=
     {| fd_name := "Property2"; fd_isbool := false;
        fd_tags := [ {| tg_sorter := "Sortables"; tg_prio := 2; tg_acc := "" |} ] |} ].
 
+(* an element: two slots per field (read plainly; read through the accessor) *)
+Definition ex_elem (cat_string : Z) (flag : bool) (p2 : Z) : elem :=
+  [VZ 0; VZ cat_string; VB flag; VZ 0; VZ p2; VZ 0].
+
 Example C08_example_domain :
   (forall n, In n (sorter_names ex_fields) -> prios_distinct n ex_fields = true)
-  /\ spec_keys "Sortables" ex_fields = [KOrd 0; KOrd 2; KBool 1].
+  /\ spec_keys "Sortables" ex_fields = [KOrd 1; KOrd 4; KBool 2].   (* slots: Category.String(), Property2, Flag *)
 Proof. split; [|reflexivity]. intros n H. cbn in H. intuition (subst; reflexivity). Qed.
 
 Example C08_example_less :
   match gen_less "Sortable" ex_fields "Sortables" with
-  | Some f => f [VZ 1; VB false; VZ 5] [VZ 1; VB true; VZ 5] = true   (* tie, tie, false < true *)
-              /\ f [VZ 1; VB true; VZ 5] [VZ 1; VB true; VZ 5] = false  (* irreflexive on true *)
-              /\ f [VZ 1; VB true; VZ 4] [VZ 1; VB false; VZ 5] = true  (* priority 2 before 3 *)
+  | Some f => f (ex_elem 1 false 5) (ex_elem 1 true 5) = true   (* tie, tie, false < true *)
+              /\ f (ex_elem 1 true 5) (ex_elem 1 true 5) = false  (* irreflexive on true *)
+              /\ f (ex_elem 1 true 4) (ex_elem 1 false 5) = true  (* priority 2 before 3 *)
   | None => False
   end
   /\ match create "Sortable" ex_fields with
@@ -184,6 +264,26 @@ Example C08_example_less :
             "return !s[i].Flag && s[j].Flag"; "}" ]]
      | None => False
      end.
+Proof. vm_compute. repeat split. Qed.
+
+(* one field read through String() by one sorter and plainly by another (two gsort tags on the
+   field, the accessor in the FIRST one only): each sorter reads the view its own tag names.
+   Values: Cat 1 prints "b", Cat 2 prints "a" - the two orders disagree. *)
+Definition ex_two_views : list fieldT :=
+  [ {| fd_name := "Cat"; fd_isbool := false;
+       fd_tags := [ {| tg_sorter := "ByCatName"; tg_prio := 1; tg_acc := "String()" |};
+                    {| tg_sorter := "ByCat"; tg_prio := 1; tg_acc := "" |} ] |} ].
+Example C08_example_two_views :
+  spec_keys "ByCatName" ex_two_views = [KOrd 1] /\ spec_keys "ByCat" ex_two_views = [KOrd 0]
+  /\ match gen_less "T" ex_two_views "ByCat", gen_less "T" ex_two_views "ByCatName" with
+     | Some raw, Some str =>
+         raw [VZ 1; VZ 1] [VZ 2; VZ 0] = true /\ str [VZ 1; VZ 1] [VZ 2; VZ 0] = false
+         /\ str [VZ 2; VZ 0] [VZ 1; VZ 1] = true
+     | _, _ => False
+     end
+  /\ gen_less_raw "T" [ {| rf_name := "Cat"; rf_isbool := false;
+                           rf_tag := [("gsort", "ByCatName,1,String()"); ("gsort", "ByCat,1")] |} ] "ByCat"
+     = gen_less "T" ex_two_views "ByCat".
 Proof. vm_compute. repeat split. Qed.
 
 (* a definition outside the quantifier (two fields of one sorter share a priority) is refused *)
@@ -208,7 +308,10 @@ Print Assumptions C08_lex.
 Print Assumptions C08_generated_less.
 Print Assumptions C08_keys_perm.
 Print Assumptions C08_keys_ascending.
+Print Assumptions C08_keys_are_tag_views.
+Print Assumptions C08_tags_parsed_independently.
 Print Assumptions C08_generation_accepts_iff.
+Print Assumptions C08_generation_accepts_orig_iff.
 Print Assumptions C08_generation_defined.
 Print Assumptions C08_atoi_itoa.
 Print Assumptions C08_tag_roundtrip.
@@ -216,6 +319,11 @@ Print Assumptions C08_tag_roundtrip_bare.
 Print Assumptions C08_tag_loop.
 Print Assumptions C08_definition_roundtrip.
 Print Assumptions C08_generated_less_from_text.
+Print Assumptions C08_text_is_printed_syntax.
+Print Assumptions C08_text_denotes.
+Print Assumptions C08_text_denotes_lex.
+Print Assumptions C08_parse_print.
+Print Assumptions C08_generated_swo.
 Print Assumptions C08_irrefl.
 Print Assumptions C08_asym.
 Print Assumptions C08_trans.
